@@ -72,6 +72,7 @@ type Duties struct {
 	AttLast, PropLast, SyncLast             map[uint64]bool // epoch -> whether the latest request for it was answered
 	Altair                                  uint64
 	Period                                  uint64
+	OnAttesterFetch                         func(epoch uint64) // the same for an attester duties request
 	OnProposerFetch                         func(epoch uint64) // called (outside the lock) while a proposer duties request is under way
 	inflight                                atomic.Int64
 }
@@ -152,6 +153,12 @@ func (e *Env) Recorded() []Event {
 func (d *Duties) AttesterDuties(_ context.Context, opts *api.AttesterDutiesOpts) (*api.Response[[]*apiv1.AttesterDuty], error) {
 	d.inflight.Add(1)
 	defer d.inflight.Add(-1)
+	d.mu.Lock()
+	ahook := d.OnAttesterFetch
+	d.mu.Unlock()
+	if ahook != nil {
+		ahook(uint64(opts.Epoch)) // e.g. time passing while the request is under way
+	}
 	d.mu.Lock()
 	defer d.mu.Unlock()
 	d.AttesterCalls = append(d.AttesterCalls, uint64(opts.Epoch))
@@ -596,6 +603,13 @@ func (e *Env) PendingOneOff() map[string]time.Time {
 		}
 	}
 	return out
+}
+
+// SetOnAttesterFetch installs (or with nil removes) the attester-fetch hook.
+func (d *Duties) SetOnAttesterFetch(f func(epoch uint64)) {
+	d.mu.Lock()
+	d.OnAttesterFetch = f
+	d.mu.Unlock()
 }
 
 // SetOnProposerFetch installs (or with nil removes) the proposer-fetch hook.
